@@ -100,6 +100,9 @@ void Builder::filename( std::string& dest, int logfile_nbr,
                         time_t timestamp) const
 {
 
+   // 'dest' is an output parameter: it returns the name, whatever it held before
+   dest.clear();
+
    for (auto const& part_def : mParts)
    {
       switch (part_def.mType)
